@@ -58,6 +58,17 @@ CLAIMED = {
          'Trusted: Coq kernel + vm_compute; floats modelled as exact rationals (generator restricted to exactly representable '
          'sums, checked with Fraction); math.log abstract; wordnet.synsets(word) is a model input checked by the oracle.',
          'DESIGN.md section 5, C15'),
+ 'C18': ('Coq proof over a Gallina model of wn.validate (Counter/dict semantics, the eighteen checks, _select_checks), with the '
+         'check table and relation inventories regenerated from the source; differential correspondence on fault-injected '
+         'lexicons',
+         'Theorems (closed under the global context): validate never raises and returns exactly the selected codes in table order, '
+         'each bound to its check; for each of the 18 codes the reported keys are exactly the entities satisfying the documented '
+         'condition stated declaratively (occurrence counts, dangling references, reverse relations, ...); E101 also with its '
+         'exact count context; reported contexts always come from a real entity; the reverse-relation table is an involution. '
+         'That E204/E401 lexicons are rejected by add is decided by the oracle on the implementation.',
+         'Trusted: Coq kernel + vm_compute; translator of _codes / relation tables; Counter, dict and str.strip semantics '
+         'modelled; correspondence harness.',
+         'DESIGN.md section 5, C18'),
  'C17': ('Coq proof over a Gallina model of Morphy using the rule table regenerated from wn/morphy.py; '
          'model tied to the code by differential correspondence (vm_compute) on generated lexicons/queries',
          'Theorems (closed under the global context) characterise Morphy.__call__ exactly for every rule table, word '
